@@ -201,12 +201,69 @@ def sib_fragment_node_names(repo, tier="quick"):
         elif vals in P:
             overwritten.add(name[1])
     wr = repo.function("write_cgsmiles:format_node")
-    read_keys = {x.slice.value for x in ast.walk(wr.node) if isinstance(x, ast.Subscript) and isinstance(x.slice, ast.Constant) and isinstance(x.slice.value, str)}
-    read_keys |= {x.args[0].value for x in ast.walk(wr.node) if isinstance(x, ast.Call) and isinstance(x.func, ast.Attribute) and x.func.attr == "get" and x.args and
-                  isinstance(x.args[0], ast.Constant) and isinstance(x.args[0].value, str)}
     if own_key is None or own_key in overwritten:
         return [ob_ok(oid, rd, construct="coarse fragment nodes keep their own name under the key the writer reads", instance="name-key",
                       reason="reader and writer of coarse fragments agree on where a node's name is")]
+
+    def keys_read(fi):
+        """(literal keys, parameter names) that format_node-like code uses as node attribute key"""
+        lits, pars = set(), set()
+        for x in ast.walk(fi.node):
+            k = None
+            if isinstance(x, ast.Subscript) and isinstance(x.ctx, ast.Load) and not (isinstance(x.value, ast.Attribute) and x.value.attr in ("nodes", "edges")):
+                k = x.slice
+            elif isinstance(x, ast.Call) and isinstance(x.func, ast.Attribute) and x.func.attr == "get" and x.args:
+                k = x.args[0]
+            if isinstance(k, ast.Constant) and isinstance(k.value, str):
+                lits.add(k.value)
+            elif isinstance(k, ast.Name) and k.id in fi.params:
+                pars.add(k.id)
+        return lits, pars
+    lits, pars = keys_read(wr)
+    # the key as a parameter: what does the writer of coarse fragments hand down?
+    if pars:
+        key_param = sorted(pars)[0]
+        wg = repo.function("write_cgsmiles:write_graph")
+        frw = repo.function("write_cgsmiles:write_cgsmiles_fragments")
+
+        def passed(caller, callee_fq, param, callee):
+            """the argument `caller` passes for `param` of the callee: ('const', v) / ('param', name) / None (default)"""
+            out = []
+            for c, nid in caller.flow.calls():
+                t = repo.resolve_call(caller, c)
+                if t is None or t.kind != "repo" or t.name != callee_fq:
+                    continue
+                pos = callee.positional_params.index(param) if param in callee.positional_params else None
+                a = next((k.value for k in c.keywords if k.arg == param), c.args[pos] if pos is not None and pos < len(c.args) else None)
+                if a is None:
+                    d = callee.defaults().get(param)
+                    out.append(("const", d.value) if isinstance(d, ast.Constant) else None)
+                elif isinstance(a, ast.Constant):
+                    out.append(("const", a.value))
+                elif isinstance(a, ast.Name) and a.id in caller.params:
+                    out.append(("param", a.id))
+                else:
+                    out.append(("?", ast.unparse(a)))
+            return out
+        hop1 = passed(wg, wr.fq, key_param, wr)
+        need(hop1, "anchor vanished: write_graph no longer calls format_node", wg)
+        got = None
+        if all(h and h[0] == "param" for h in hop1) and len({h[1] for h in hop1}) == 1:
+            hop2 = passed(frw, wg.fq, hop1[0][1], wg)
+            need(hop2, "anchor vanished: write_cgsmiles_fragments no longer calls write_graph", frw)
+            if all(h and h[0] == "const" for h in hop2) and len({h[1] for h in hop2}) == 1:
+                got = hop2[0][1]
+        elif all(h and h[0] == "const" for h in hop1) and len({h[1] for h in hop1}) == 1:
+            got = hop1[0][1]
+        if got == own_key:
+            return [ob_ok(oid, wr, construct="coarse fragments are written with nodes[n][%r] (handed down from write_cgsmiles_fragments)" % got, instance="name-key",
+                          reason="the node's own name is written")]
+        if got is not None:
+            return [ob_fail(oid, wr, construct="coarse fragments are written with nodes[n][%r]; a coarse fragment node's own name is under %r" % (got, own_key), instance="name-key",
+                            reason="the name key handed down by the writer of coarse fragments is not the one read_fragment_cgsmiles keeps the node names under")]
+        return [ob_undecided(oid, wr, construct="the node-name key of format_node is a parameter whose value the rule cannot follow from write_cgsmiles_fragments", instance="name-key",
+                             reason="outside the forms the rule knows")]
+    read_keys = lits
     bad = (read_keys & overwritten) and own_key not in read_keys
     return [ob_fail(oid, wr, construct="format_node writes nodes[n][%r]; a coarse fragment node's own name is under %r" % (sorted(read_keys & overwritten)[0], own_key),
                     instance="name-key", reason="read_fragment_cgsmiles moves the node names to %r and sets %r to the fragment's name: {#A=[#B][$][#C]} is written as "
